@@ -641,6 +641,15 @@ func (c *Compiler) structCode(typ *runtime.Type, isPtr bool) (*StructCode, error
 	fieldMap := c.getFieldMap(fields)
 	duplicatedFieldMap := c.getDuplicatedFieldMap(fieldMap)
 	code.fields = c.filteredDuplicatedFields(fields, duplicatedFieldMap)
+	// an array of length zero is always empty: with omitempty the member never appears
+	kept := code.fields[:0]
+	for _, field := range code.fields {
+		if field.tag.IsOmitEmpty && field.typ.Kind() == reflect.Array && field.typ.Len() == 0 {
+			continue
+		}
+		kept = append(kept, field)
+	}
+	code.fields = kept
 	if !code.disableIndirectConversion && !indirect && isPtr {
 		code.enableIndirect()
 	}
